@@ -158,6 +158,7 @@ type run struct {
 	wg                         sync.WaitGroup
 	gathering                  bool
 	srflx                      bool
+	relay                      int
 	noTick                     atomic.Bool
 	hammerStop                 atomic.Bool
 	blockNew                   atomic.Bool
@@ -201,6 +202,19 @@ func (r *run) newAgent(side int, fn *fnet) (*ice.Agent, error) {
 			opts = append(opts,
 				ice.WithCandidateTypes([]ice.CandidateType{ice.CandidateTypeHost, ice.CandidateTypeServerReflexive}),
 				ice.WithUrls([]*stun.URI{uri}), ice.WithSTUNGatherTimeout(10*time.Minute))
+		}
+	}
+	if side == 0 && r.relay >= 2 {
+		// relay gathering over a control connection whose set-up never completes
+		spec := map[int]string{2: "turns:10.0.0.9:5349?transport=tcp", 3: "turn:10.0.0.9:3478?transport=tcp", 4: "turns:10.0.0.9:5349?transport=udp"}[r.relay]
+		uri, uerr := stun.ParseURI(spec)
+		if uerr == nil {
+			uri.Username, uri.Password = "user", "pass"
+			fn.tcpDialBlocks = r.relay == 3
+			opts = append(opts,
+				ice.WithCandidateTypes([]ice.CandidateType{ice.CandidateTypeHost, ice.CandidateTypeRelay}),
+				ice.WithUrls([]*stun.URI{uri}),
+				ice.WithTURNTransportProtocols([]ice.NetworkType{ice.NetworkTypeUDP4, ice.NetworkTypeTCP4}))
 		}
 	}
 	if side == 0 {
@@ -1065,6 +1079,7 @@ func runCase(id string, toks []string, bound time.Duration) (obs []string, flags
 	}
 	if len(h) > 11 {
 		r.srflx = geti(11) == 1
+		r.relay = geti(11) // 2 turns/tcp silent TLS server, 3 turn/tcp connect never completes, 4 turns/udp silent DTLS server
 	}
 	if r.srflx {
 		// the srflx gatherer relies on Close of its socket to abort the STUN exchange and on read
@@ -1265,7 +1280,8 @@ func (g *genr) gen(tier string) (toks []string, tag string) {
 	}
 	if g.pick(16) == 0 {
 		// Close while the server-reflexive gatherer is inside a STUN exchange with a silent server
-		toks = []string{"cl1", itoa(g.pick(2)), "1", "0", "0", "0", "0", "0", "0", "0", "0", "1"}
+		kind := 1 + g.pick(4) // 1 srflx (STUN read), 2 turns/tcp (TLS handshake), 3 turn/tcp (connect), 4 turns/udp (DTLS handshake)
+		toks = []string{"cl1", itoa(g.pick(2)), "1", "0", "0", "0", "0", "0", "0", "0", "0", itoa(kind)}
 		n := 1 + g.pick(2)
 		ca := []string{"CA", itoa(n)}
 		for i := 0; i < n; i++ {
@@ -1281,7 +1297,7 @@ func (g *genr) gen(tier string) (toks []string, tag string) {
 			toks = append(toks, s...)
 		}
 
-		return toks, "srflxgather"
+		return toks, []string{"", "srflxgather", "relaygather_tls", "relaygather_tcpdial", "relaygather_dtls"}[kind]
 	}
 	ctl := g.pick(2)
 	ncand := 1 + g.pick(3)
@@ -1460,6 +1476,58 @@ func (g *genr) gen(tier string) (toks []string, tag string) {
 	return toks, tag
 }
 
+// schedLatency estimates how late the scheduler currently is: the overshoot of a 1 ms sleep and the
+// cost of a goroutine hand-off.  On an idle machine both are far below a millisecond.
+func schedLatency() time.Duration {
+	var worst time.Duration
+	for i := 0; i < 3; i++ {
+		t0 := time.Now()
+		time.Sleep(time.Millisecond)
+		if d := time.Since(t0) - time.Millisecond; d > worst {
+			worst = d
+		}
+	}
+	ch, done := make(chan struct{}), make(chan struct{})
+	t0 := time.Now()
+	go func() {
+		for i := 0; i < 20; i++ {
+			<-ch
+		}
+		close(done)
+	}()
+	for i := 0; i < 20; i++ {
+		ch <- struct{}{}
+	}
+	<-done
+	if d := time.Since(t0) / 20; d > worst {
+		worst = d
+	}
+
+	return worst
+}
+
+// loadedBound scales the watchdog bound with the observed scheduling latency (the machine is shared:
+// a verdict must not depend on how busy it is); it also waits a little for a saturated machine to calm.
+func loadedBound(base time.Duration) (time.Duration, bool) {
+	lat := schedLatency()
+	for i := 0; i < 10 && lat > 50*time.Millisecond; i++ {
+		time.Sleep(500 * time.Millisecond)
+		lat = schedLatency()
+	}
+	if lat < 5*time.Millisecond {
+		return base, false
+	}
+	f := int64(lat / (5 * time.Millisecond))
+	if f > 12 {
+		f = 12
+	}
+	if f < 2 {
+		f = 2
+	}
+
+	return base * time.Duration(f), true
+}
+
 func runClose(ctx *Ctx) error {
 	ctx.Rule = "a case counts when a closer was started while the subject agent had at least one started candidate or a blocked caller"
 	bound := 5 * time.Second
@@ -1484,6 +1552,9 @@ func runClose(ctx *Ctx) error {
 			jobs = append(jobs, job{i, toks, tag})
 		}
 	}
+	if from, err := strconv.Atoi(os.Getenv("CLOSE_FROM")); err == nil && from > 0 && from < len(jobs) {
+		jobs = jobs[from:] // debugging aid: skip the first cases of the generated list
+	}
 	type result struct {
 		obs   []string
 		flags map[string]bool
@@ -1495,7 +1566,15 @@ func runClose(ctx *Ctx) error {
 	}
 	var wg sync.WaitGroup
 	next := int32(-1)
-	var hung int32
+	var hung, loadedCases int32
+	started := time.Now()
+	budget := 150 * time.Second
+	if ctx.Tier != "quick" {
+		budget = 900 * time.Second
+	}
+	if ctx.Replay != "" {
+		budget = time.Hour
+	}
 	for w := 0; w < workers; w++ {
 		wg.Add(1)
 		go func() {
@@ -1517,9 +1596,15 @@ func runClose(ctx *Ctx) error {
 					pprof.Do(context.Background(), pprof.Labels("case", id), func(context.Context) {
 						// when hangs are systemic (a broken close path) the full bound per call would
 						// make the run take hours: the verdict is already in, so shorten it
-						b := bound
+						b, loaded := loadedBound(bound)
+						if loaded {
+							atomic.AddInt32(&loadedCases, 1)
+						}
 						if atomic.LoadInt32(&hung) >= 12 {
 							b = 1500 * time.Millisecond
+						}
+						if time.Since(started) > budget {
+							return // out of time: the remaining cases are not run
 						}
 						obs, fl := runCase(id, j.toks, b)
 						if !fl["returned"] && !fl["poisoned"] {
@@ -1536,8 +1621,13 @@ func runClose(ctx *Ctx) error {
 	}
 	wg.Wait()
 	// second chance for watchdog expiries, one case at a time (a quiet moment)
+	retried := 0
 	for i, j := range jobs {
-		if results[i].flags["hang"] {
+		if results[i].flags["hang"] && retried < 16 && time.Since(started) < budget+3*time.Minute {
+			retried++
+			if os.Getenv("CLOSE_DEBUG") != "" {
+				fmt.Fprintf(os.Stderr, "retry %s tag=%s %s\n", fmt.Sprintf("c%d", j.idx), j.tag, strings.Join(j.toks, " "))
+			}
 			ctx.Count("retried_after_watchdog")
 			id := fmt.Sprintf("r%d", j.idx)
 			func() {
@@ -1547,14 +1637,23 @@ func runClose(ctx *Ctx) error {
 					}
 				}()
 				pprof.Do(context.Background(), pprof.Labels("case", id), func(context.Context) {
-					obs, fl := runCase(id, j.toks, bound)
+					b, _ := loadedBound(bound)
+					obs, fl := runCase(id, j.toks, b)
 					results[i] = result{obs, fl}
 				})
 			}()
 		}
 	}
+	if n := atomic.LoadInt32(&loadedCases); n > 0 {
+		ctx.Dist["cases_run_with_scaled_watchdog"] = int(n)
+	}
 	for i, j := range jobs {
 		res := results[i]
+		if res.obs == nil {
+			ctx.Count("not_run_out_of_time")
+
+			continue
+		}
 		ctx.Count("tag:" + j.tag)
 		keys := make([]string, 0, len(res.flags))
 		for k, v := range res.flags {
